@@ -1091,7 +1091,7 @@ def mon_C10(case):
         if ln.plain is not None:
             continue
         pre = prev_state(case, i)
-        for t, c in ln.cache.items():
+        for t, c in list(ln.cache.items()) + list(ln.me.items()):
             fgcount = {}
             for sid, uid in c["sess"].items():
                 if not bg.get(sid, False):
@@ -1101,8 +1101,9 @@ def mon_C10(case):
                     out.append((i, f"C10 online count of {u} on {t} is negative ({p['o']})"))
                 want_o = fgcount.get(u, 0)
                 if p["o"] != want_o:
-                    pp = pre.cache.get(t, {}).get("users", {}).get(u) if pre else None
-                    pre_sess = pre.cache.get(t, {}).get("sess", {}) if pre else {}
+                    pc = (pre.cache.get(t) or pre.me.get(t) or {}) if pre else {}
+                    pp = pc.get("users", {}).get(u)
+                    pre_sess = pc.get("sess", {})
                     same = pp is not None and pp["o"] == p["o"] and pre_sess == c["sess"] and w[0] != "fg"
                     if not same:
                         out.append((i, f"C10 online count of {u} on {t} is {p['o']} with {want_o} attached foreground session(s) after `{w[0]}`"))
@@ -1398,7 +1399,7 @@ def mon_C14(case):
                 if u != t:
                     out.append((i, f"C14 after `{w[0]}` `me` of {t} has session {sid} attached for {u}"))
         if w[0] in ME_REQS:
-            nrep = len([f for sid, f in ln.meframes if sid == w[1] and f.startswith("ctrl ")])
+            nrep = len([f for sid, f in ln.meframes if sid == w[1] and f.startswith("ctrl ") and not f.startswith("ctrl 205 ")])
             if nrep > 1:
                 out.append((i, f"C14 request `{w[0][2:]}` on `me` from {w[1]} was answered twice"))
         if w[0] in ("sub", "leave", "deltopic", "delsub", "newgrp", "pub", "setsub", "setdesc", "settags", "delmsg"):
